@@ -450,7 +450,8 @@ class Incremental(object):
                     except FileNotFoundError:
                         continue
                     procs.append((label, pr, pr.stdout.fileno()))
-                verdict, backend = poll(t0 + HARD_TIMEOUT_S + CLI_TIMEOUT_S)
+                scale = getattr(getattr(self.ex, 'cur_contract', None), 'budget', 1) or 1
+                verdict, backend = poll(t0 + scale * (HARD_TIMEOUT_S + CLI_TIMEOUT_S))
         finally:
             kill_all()
             if smt_path:
@@ -462,11 +463,11 @@ class Incremental(object):
             return Result(ob.name, 'unsat', backend, time.time() - t0, info=ob.info)
         if verdict == 'sat':
             # repeat in-process (on the solver configuration that answered) to obtain the model
-            return self._check_inprocess(ob, t0, fresh=(backend != 'z3-api'))
+            return self._check_inprocess(ob, t0, fresh=(backend != 'z3-api'), decided_by=backend)
         return Result(ob.name, 'unknown', 'portfolio', time.time() - t0, info=ob.info,
                       reason='no back end decided within the budget')
 
-    def _check_inprocess(self, ob, t0, fresh=False):
+    def _check_inprocess(self, ob, t0, fresh=False, decided_by=None):
         if fresh:
             s2 = z3.Solver()
             s2.set('random_seed', 3)
@@ -491,5 +492,8 @@ class Incremental(object):
             return Result(ob.name, 'unsat', 'z3-api', dt, info=ob.info)
         if r == z3.sat:
             return Result(ob.name, 'sat', 'z3-api', dt, model=model, info=ob.info)
+        if decided_by in ('cvc5', 'z3-new'):
+            # a CLI back end refuted the obligation within the budget; the in-process solver could not reproduce a model
+            return Result(ob.name, 'sat', decided_by, dt, model=None, info=ob.info, reason='model not imported from CLI back end')
         # fall back to a fresh (non-incremental) query with the CLI portfolio
         return check(self.ex.assumes[:ob.n_assumes], ob.guard, ob.cond, ob.name, ob.info, api_timeout_ms=1000)
